@@ -5,7 +5,7 @@
    premises [status k = MgOptimal -> feasible k], [status k = MgInfeasible -> ~ feasible k]. *)
 From Coq Require Import List NArith ZArith QArith Bool Arith Lia.
 Import ListNotations.
-From FP Require Import Lin Blocks BlocksProofs PathEnc MiscEnc MiscEncProofs MgsComplete LowerBoundsMgs MgsRange.
+From FP Require Import Lin Blocks BlocksProofs PathEnc MiscEnc MiscEncProofs MgsComplete LowerBoundsMgs MgsRange MgsPartsIff.
 Local Open Scope Q_scope.
 
 (* rows/columns of MinGenSet._create_solver(k) => the Gen values are a multiset of size k of values in
@@ -48,6 +48,46 @@ Theorem C15_genset_permutation_invariant : forall (m : nat) (numbers : list Q) (
   Permutation.Permutation g g' -> genset m numbers total g -> genset m numbers total g'.
 Proof. exact genset_perm. Qed.
 Print Assumptions C15_genset_permutation_invariant.
+
+(* ---- partition constraints: the rows admit EXACTLY the generating multisets that meet every constraint in the sense
+   part_ok_t (parts_t I): each element in exactly one part index below the length of the longest constraint, the sums of the parts
+   the constraint has as given (an element may sit in an index a shorter constraint does not have; it then adds to none of its sums) *)
+Theorem C15_partition_block_sound : forall (I : mgs_inst) (k : nat) (a : var -> Q), (1 <= mg_mult I)%nat -> sat a (encode_mgs I k) ->
+  Forall (part_ok_t (parts_t I) (map (fun i => a (Gen i)) (layers k))) (parts_of I).
+Proof. exact mgs_parts_sound. Qed.
+Print Assumptions C15_partition_block_sound.
+
+Theorem C15_genset_rows_complete_exact : forall (I : mgs_inst) (k : nat) (g : list Q),
+  (1 <= mg_mult I)%nat -> length g = k -> genset_rows I g -> exists a, sat a (encode_mgs I k).
+Proof. exact mgs_enc_complete_rows. Qed.
+Print Assumptions C15_genset_rows_complete_exact.
+
+(* THE IFF with partition constraints (both directions, same predicate) *)
+Theorem C15_model_feasible_iff_generating_multiset_with_partition_constraints : forall (I : mgs_inst) (k : nat), (1 <= mg_mult I)%nat ->
+  ((exists a, sat a (encode_mgs I k)) <-> exists g, length g = k /\ genset_rows I g).
+Proof. exact mgs_feasible_iff_parts. Qed.
+Print Assumptions C15_model_feasible_iff_generating_multiset_with_partition_constraints.
+
+(* the rows' predicate is the natural one (every element in exactly one part OF the constraint) whenever all constraints have the
+   same number of parts, in particular for a single constraint; in general the natural predicate implies it (corollary used above) *)
+Theorem C15_rows_predicate_natural_for_equal_lengths : forall (I : mgs_inst) (g : list Q),
+  (forall cons, In cons (parts_of I) -> length cons = parts_t I) -> (genset_rows I g <-> genset_for I g).
+Proof. exact genset_rows_strict. Qed.
+Print Assumptions C15_rows_predicate_natural_for_equal_lengths.
+Theorem C15_natural_predicate_implies_rows_predicate : forall (I : mgs_inst) (g : list Q), genset_for I g -> genset_rows I g.
+Proof. exact genset_for_rows. Qed.
+Print Assumptions C15_natural_predicate_implies_rows_predicate.
+
+(* MinGenSet.solve returns the minimum also WITH partition constraints (solver specification): the reported size has a generating
+   multiset meeting every constraint, no size from max(1, lowerbound) up to it has one *)
+Theorem C15_mgs_returns_minimum_exact : forall (I : mgs_inst) (status : nat -> mstatus), (1 <= mg_mult I)%nat ->
+  (forall k, status k = MgOptimal -> exists a, sat a (encode_mgs I k)) ->
+  (forall k, status k = MgInfeasible -> forall a, ~ sat a (encode_mgs I k)) ->
+  forall lb n extra tried k, mgsm_loop status lb n extra = (tried, Some k) ->
+  (exists g, length g = k /\ genset_rows I g) /\ (Nat.max 1 lb <= k)%nat /\
+  forall k' g, (Nat.max 1 lb <= k' < k)%nat -> length g = k' -> ~ genset_rows I g.
+Proof. exact mgs_returns_minimum_rows. Qed.
+Print Assumptions C15_mgs_returns_minimum_exact.
 
 (* pre-processing keeps exactly the generating multisets of the caller's numbers *)
 Theorem C15_preprocess_preserves_generating_multisets : forall (rm : bool) (mult : nat) (numbers : list Q) (total : Q) (g : list Q),
@@ -317,6 +357,8 @@ Example C15_nonvacuous_complete : genset_for ex_complete_inst [3 # 4; 1 # 4] /\ 
 Proof. split; [exact ex_complete_genset|exact ex_complete_sat]. Qed.
 Example C15_nonvacuous_complete_with_partition_constraints : genset_for ex_parts_inst [2; 1; 2; 1] /\ exists a, sat a (encode_mgs ex_parts_inst 4).
 Proof. split; [exact ex_parts_genset|exact ex_parts_sat]. Qed.
+Example C15_nonvacuous_rows_predicate : genset_rows ex_parts_inst [2; 1; 2; 1] /\ parts_t ex_parts_inst = 3%nat.
+Proof. split; [apply genset_for_rows; exact ex_parts_genset|reflexivity]. Qed.
 Example C15_nonvacuous_range : range_witness [4; 1; 2] 7 = [1 - 0; 2 - 1; 4 - 2; 7 - 4] /\ mgs_domain ex_range_inst /\
   exists a, sat a (encode_mgs ex_range_inst 4).
 Proof. exact ex_range. Qed.
